@@ -980,3 +980,26 @@ fn d25_bptree_separator_overflow_is_stale_after_redistribution() {
 	let missing: Vec<usize> = live.iter().copied().filter(|&i| t.get(&key(i)).unwrap().is_none()).collect();
 	assert!(missing.is_empty(), "D25: {} of {} surviving keys are not found after reopen: {:?}", missing.len(), live.len(), &missing[..missing.len().min(8)]);
 }
+
+// D26: SkiplistIterator::last() uses is_valid() as the guard of its "step back over nodes >= upper" loop; is_valid() is
+// false for the cached `upper_node`, so once a forward run has cached that node, seek_last() on the same cursor stops on
+// it and reports an empty range.
+#[tokio::test(flavor = "multi_thread")]
+async fn d26_seek_last_after_forward_run_off_the_end() {
+	let d = td();
+	let opts = mk_opts(d.path().to_path_buf(), |_| {});
+	let tree = Tree::new(Arc::clone(&opts)).unwrap();
+	put(&tree, b"a", b"1").await;
+	put(&tree, b"b", b"2").await;
+	put(&tree, b"z", b"26").await; // at/after the exclusive upper bound `m`
+	let tx = tree.begin().unwrap();
+	let mut it = tx.range(b"a", b"m").unwrap();
+	assert!(it.seek_first().unwrap());
+	assert_eq!(it.key().user_key(), b"a");
+	assert!(it.next().unwrap());
+	assert_eq!(it.key().user_key(), b"b");
+	assert!(!it.next().unwrap(), "ran off the end");
+	// only seek operations from here on (C09's quantifier)
+	assert!(it.seek_last().unwrap(), "D26: seek_last() after running off the end reports an empty range");
+	assert_eq!(it.key().user_key(), b"b");
+}
